@@ -1,6 +1,9 @@
 package vc
 
 import (
+	"go/ast"
+	"go/printer"
+	"golang.org/x/tools/go/ssa"
 	"bytes"
 	"context"
 	"fmt"
@@ -460,12 +463,43 @@ func TryReplay(e *Engine, r Result, dir, name, scratch string) (string, bool) {
 		if usesWriter {
 			sb.WriteString("type govcBuf struct{ b []byte }\n\nfunc (g *govcBuf) Write(p []byte) (int, error) { g.b = append(g.b, p...); return len(p), nil }\n\n")
 		}
+		if usesWriter {
+			sb.WriteString("func (g *govcBuf) govcBytes() []byte { return g.b }\n\n")
+		}
 		fmt.Fprintf(&sb, "func %s(t *testing.T) {\n", testName)
-		sb.WriteString("\tdefer func() {\n\t\tif r := recover(); r != nil {\n\t\t\tt.Fatalf(\"GOVC-REPRODUCED: the real code panics on the model input: %v\", r)\n\t\t}\n\t}()\n")
+		clauseMode := false
+		var pre, post string
+		if r.O.Kind == "ensures" && r.O.Clause != nil && u.BC != nil {
+			pre, post, clauseMode = clauseReplay(e, u, r.O.Clause, fn)
+		}
+		if clauseMode {
+			sb.WriteString("\tdefer func() {\n\t\tif r := recover(); r != nil {\n\t\t\tt.Fatalf(\"GOVC-PANIC: the real code panics on the model input (not the clause under replay): %v\", r)\n\t\t}\n\t}()\n")
+		} else {
+			sb.WriteString("\tdefer func() {\n\t\tif r := recover(); r != nil {\n\t\t\tt.Fatalf(\"GOVC-REPRODUCED: the real code panics on the model input: %v\", r)\n\t\t}\n\t}()\n")
+		}
 		sb.Write(body.Bytes())
-		fmt.Fprintf(&sb, "\t%s\n", call)
-		if r.O.Kind != "safety" {
-			fmt.Fprintf(&sb, "\tt.Logf(\"the call returned; the violated clause (%s) is stated in the header and must be compared by hand\")\n", strings.ReplaceAll(r.O.Kind, "\"", "'"))
+		if clauseMode {
+			// the contract clause is evaluated on the real run: preconditions before the call, the refuted postcondition after it
+			sb.WriteString(pre)
+			nres := fn.Signature.Results().Len()
+			if nres > 0 {
+				var rs []string
+				for i := 0; i < nres; i++ {
+					rs = append(rs, fmt.Sprintf("r%d", i))
+				}
+				fmt.Fprintf(&sb, "\t%s := %s\n", strings.Join(rs, ", "), call)
+				for _, x := range rs {
+					fmt.Fprintf(&sb, "\t_ = %s\n", x)
+				}
+			} else {
+				fmt.Fprintf(&sb, "\t%s\n", call)
+			}
+			sb.WriteString(post)
+		} else {
+			fmt.Fprintf(&sb, "\t%s\n", call)
+			if r.O.Kind != "safety" {
+				fmt.Fprintf(&sb, "\tt.Logf(\"the call returned; the violated clause (%s) is stated in the header and must be compared by hand\")\n", strings.ReplaceAll(r.O.Kind, "\"", "'"))
+			}
 		}
 		sb.WriteString("}\n")
 		file = filepath.Join(dir, name+"_test.go")
@@ -475,15 +509,27 @@ func TryReplay(e *Engine, r Result, dir, name, scratch string) (string, bool) {
 		os.WriteFile(file, sb.Bytes(), 0o644)
 		// run it against the real code
 		ov := filepath.Join(scratch, "ov_"+name[:min(40, len(name))]+".json")
-		os.WriteFile(ov, []byte(fmt.Sprintf("{\"Replace\": {%q: %q}}", filepath.Join(e.RepoDir, pkgDir, "zz_govc_replay_test.go"), file)), 0o644)
+		ovText := fmt.Sprintf("{\"Replace\": {%q: %q", filepath.Join(e.RepoDir, pkgDir, "zz_govc_replay_test.go"), file)
+		if clauseMode {
+			// the generated contract file (spec functions) with evaluating helpers joins the package for this run only
+			gp := filepath.Join(e.RepoDir, pkgDir, GenFileName)
+			if gen, ok := e.GenText[gp]; ok {
+				gf := filepath.Join(scratch, "gen_"+name[:min(40, len(name))]+".go")
+				os.WriteFile(gf, []byte(ReplayText(gen)), 0o644)
+				ovText += fmt.Sprintf(", %q: %q", gp, gf)
+			}
+		}
+		os.WriteFile(ov, []byte(ovText+"}}"), 0o644)
 		ctx, cancel := context.WithTimeout(context.Background(), 120*time.Second)
 		defer cancel()
 		cmd := exec.CommandContext(ctx, "bash", "-c", fmt.Sprintf("ulimit -v 4000000; cd %s && go test -overlay %s -vet=off -timeout 60s -count=1 -run '^%s$' ./%s", e.RepoDir, ov, testName, pkgDir))
 		cmd.Env = append(os.Environ(), "GOFLAGS=-mod=mod", "GOPROXY=off", "GOSUMDB=off", "GOTOOLCHAIN=local")
 		out, _ := cmd.CombinedOutput()
 		os.Remove(ov)
-		if bytes.Contains(out, []byte("GOVC-REPRODUCED")) && r.O.Kind == "safety" {
-			reproduced = true // a safety obligation is violated exactly when the real call panics
+		if bytes.Contains(out, []byte("GOVC-REPRODUCED")) && (r.O.Kind == "safety" || clauseMode) {
+			// a safety obligation is violated exactly when the real call panics; a postcondition when every precondition
+			// evaluated to true on the input and the clause evaluated to false on the real result
+			reproduced = true
 		}
 		res := string(out)
 		if len(res) > 3000 {
@@ -497,4 +543,124 @@ func TryReplay(e *Engine, r Result, dir, name, scratch string) (string, bool) {
 		return "", false
 	}
 	return file, reproduced
+}
+
+// clauseReplay renders Go code that evaluates the contract's preconditions (before the call) and the refuted
+// postcondition (after it) on the real run. ok is false when the clause cannot be evaluated by a running program
+// (final(), atHead(), old() of something that depends on a quantified variable); ghost state met at run time makes
+// the evaluation give up by itself (govcGhost).
+func clauseReplay(e *Engine, u *Unit, cl *ClauseExpr, fn *ssa.Function) (pre, post string, ok bool) {
+	bc := u.BC
+	info := bc.info()
+	var hoists []string
+	giveUp := false
+	show := func(x ast.Expr) string {
+		var b bytes.Buffer
+		printer.Fprint(&b, e.Fset, x)
+		return b.String()
+	}
+	// render an expression with old(...) replaced by hoisted variables
+	var render func(x ast.Expr) string
+	render = func(x ast.Expr) string {
+		type saved struct {
+			p *ast.ParenExpr
+			x ast.Expr
+		}
+		var undo []saved
+		bound := map[types.Object]bool{}
+		ast.Inspect(x, func(n ast.Node) bool {
+			if fl, isLit := n.(*ast.FuncLit); isLit {
+				for _, f := range fl.Type.Params.List {
+					for _, nm := range f.Names {
+						bound[info.Defs[nm]] = true
+					}
+				}
+			}
+			return true
+		})
+		ast.Inspect(x, func(n ast.Node) bool {
+			p, isParen := n.(*ast.ParenExpr)
+			if !isParen {
+				return true
+			}
+			switch e.parenMarks[p.Lparen] {
+			case "old":
+				usesBound := false
+				ast.Inspect(p.X, func(m ast.Node) bool {
+					if id, isID := m.(*ast.Ident); isID && bound[info.Uses[id]] {
+						usesBound = true
+					}
+					return true
+				})
+				if usesBound {
+					giveUp = true
+					return false
+				}
+				v := fmt.Sprintf("govcOld%d", len(hoists))
+				hoists = append(hoists, fmt.Sprintf("\t%s := %s\n\t_ = %s\n", v, show(p.X), v))
+				undo = append(undo, saved{p, p.X})
+				p.X = ast.NewIdent(v)
+				return false
+			case "final", "head":
+				giveUp = true
+				return false
+			}
+			return true
+		})
+		txt := show(x)
+		for _, s := range undo {
+			s.p.X = s.x
+		}
+		return txt
+	}
+	var decl strings.Builder
+	// parameter names of the contract denote the replay's argument variables
+	for i, p := range bc.Params {
+		if p.Name() == "" || p.Name() == "_" {
+			continue
+		}
+		src := fmt.Sprintf("a%d", i)
+		if fn.Signature.Recv() != nil {
+			if i == 0 {
+				src = "recv"
+			} else {
+				src = fmt.Sprintf("a%d", i-1)
+			}
+		}
+		fmt.Fprintf(&decl, "\t%s := %s\n\t_ = %s\n", p.Name(), src, p.Name())
+	}
+	var reqs []string
+	for _, rq := range bc.Requires {
+		reqs = append(reqs, "("+render(rq.Expr)+")")
+	}
+	clause := render(cl.Expr)
+	if giveUp {
+		return "", "", false
+	}
+	evalFn := func(name, expr string) string {
+		return fmt.Sprintf("\t%sEv, %sOk := func() (ev bool, ok bool) {\n\t\tdefer func() {\n\t\t\tif r := recover(); r != nil {\n\t\t\t\tev, ok = false, false\n\t\t\t}\n\t\t}()\n\t\treturn true, %s\n\t}()\n", name, name, expr)
+	}
+	var pb strings.Builder
+	pb.WriteString(decl.String())
+	pre1 := "true"
+	if len(reqs) > 0 {
+		pre1 = strings.Join(reqs, " && ")
+	}
+	pb.WriteString(evalFn("govcPre", pre1))
+	for _, h := range hoists {
+		pb.WriteString(h)
+	}
+	var qb strings.Builder
+	for i, r := range bc.Results {
+		if r.Name() == "" || r.Name() == "_" {
+			continue
+		}
+		fmt.Fprintf(&qb, "\t%s := r%d\n\t_ = %s\n", r.Name(), i, r.Name())
+	}
+	qb.WriteString(evalFn("govcPost", clause))
+	qb.WriteString("\tswitch {\n\tcase !govcPreEv || !govcPostEv:\n\t\tt.Logf(\"GOVC-NOT-EVALUABLE: the clause (or a precondition) mentions ghost state or panicked while being evaluated\")\n")
+	qb.WriteString("\tcase !govcPreOk:\n\t\tt.Logf(\"GOVC-PRECONDITION-FALSE: the candidate input does not satisfy the contract's preconditions on the real types\")\n")
+	qb.WriteString("\tcase !govcPostOk:\n\t\tt.Fatalf(\"GOVC-REPRODUCED: every precondition holds on this input and the postcondition is false on the result of the real code\")\n")
+	qb.WriteString("\tdefault:\n\t\tt.Logf(\"GOVC-HOLDS: the postcondition holds on this input (the candidate did not reproduce the violation)\")\n\t}\n")
+	return pb.String(), qb.String(), true
 }
